@@ -221,7 +221,7 @@ func inbound(vs []certVariant, a *app, port int) []result {
 				if v.cert != nil {
 					cfg.Certificates = []tls.Certificate{*v.cert}
 				}
-				d := websocket.Dialer{TLSClientConfig: cfg, Subprotocols: sp, HandshakeTimeout: 5 * time.Second}
+				d := websocket.Dialer{TLSClientConfig: cfg, Subprotocols: sp, HandshakeTimeout: 60 * time.Second}
 				a.take()
 				conn, _, err := d.Dial(fmt.Sprintf("wss://127.0.0.1:%d/ship/", port), nil)
 				got, detail := false, ""
@@ -229,12 +229,12 @@ func inbound(vs []certVariant, a *app, port int) []result {
 					detail = "dial: " + err.Error()
 				} else {
 					_ = conn.WriteMessage(websocket.BinaryMessage, []byte{0, 0})
-					conn.SetReadDeadline(time.Now().Add(8 * time.Second))
+					conn.SetReadDeadline(time.Now().Add(90 * time.Second))
 					for {
 						_, msg, err := conn.ReadMessage()
 						if err != nil {
 							if ne, ok := err.(net.Error); ok && ne.Timeout() {
-								engineError("%s: the hub neither answered nor closed the connection within 8 s", name)
+								engineError("%s: the hub neither answered nor closed the connection within 90 s", name)
 							}
 							detail += " end: " + err.Error()
 							break
@@ -283,7 +283,7 @@ func startPeer(v certVariant, offerShip bool) *peerServer {
 				return
 			}
 			defer c.Close()
-			c.SetReadDeadline(time.Now().Add(8 * time.Second))
+			c.SetReadDeadline(time.Now().Add(90 * time.Second))
 			for {
 				_, msg, err := c.ReadMessage()
 				if err != nil {
@@ -345,13 +345,19 @@ func outbound(vs []certVariant, h *hub.Hub, a *app, otherSKI string) []result {
 			entry := &api.MdnsEntry{Name: "peer", Ski: norm, Identifier: "peer", Path: "/ship/", Host: "127.0.0.1", Port: p.port, Addresses: []net.IP{net.ParseIP("127.0.0.1")}}
 			h.ReportMdnsEntries(map[string]*api.MdnsEntry{norm: entry}, true)
 			got, detail := false, ""
+			// a connection that has to come about is waited for generously (no verdict depends on the machine being
+			// fast); for one that must not, 1.5 s without a frame is the observation
+			wait := 1500 * time.Millisecond
+			if expected {
+				wait = 30 * time.Second
+			}
 			select {
 			case f := <-p.frames:
 				got = true
 				detail = fmt.Sprintf("frame %x", f[:min(len(f), 8)])
 			case <-p.closed:
 				detail = "closed without a frame"
-			case <-time.After(1500 * time.Millisecond):
+			case <-time.After(wait):
 				detail = "no connection / no frame"
 			}
 			h.UnregisterRemoteSKI(d)
@@ -422,6 +428,49 @@ func main() {
 		}
 		results = append(results, result{Case: name, Expected: true, Got: ok, Detail: "ski=" + ski})
 	}
+
+	// generator half: key values. CreateCertificate draws its key from crypto/rand.Reader; a reader that hands
+	// out a chosen scalar for the key (and a fixed stream for everything else) makes the key an enumerable input:
+	// every scalar k in [1, kMax] whose public point has a coordinate with a leading zero byte (the encodings
+	// that differ between fixed-width and minimal big-endian), plus the first 16 scalars.
+	kMax := 1500
+	if *tier == "thorough" {
+		kMax = 6000
+	}
+	keyCases := 0
+	for k := 1; k <= kMax; k++ {
+		kb := make([]byte, 32)
+		big.NewInt(int64(k)).FillBytes(kb)
+		x, y := elliptic.P256().ScalarBaseMult(kb)
+		lead := len(x.Bytes()) < 32 || len(y.Bytes()) < 32
+		if !lead && k > 16 {
+			continue
+		}
+		keyCases++
+		saved := rand.Reader
+		rand.Reader = &keyReader{scalar: kb}
+		c, err := cert.CreateCertificate("unit", "org", "DE", "generated")
+		rand.Reader = saved
+		name := fmt.Sprintf("generator key=%d(leading-zero-coordinate=%v)", k, lead)
+		if err != nil {
+			results = append(results, result{Case: name, Expected: true, Got: false, Detail: "CreateCertificate failed: " + err.Error()})
+			continue
+		}
+		l, _ := x509.ParseCertificate(c.Certificate[0])
+		if pk, ok := l.PublicKey.(*ecdsa.PublicKey); !ok || pk.X.Cmp(x) != 0 {
+			// the library did not use the injected scalar (another way of drawing keys): not a verdict, the case does not count
+			keyCases--
+			continue
+		}
+		ski, err := cert.SkiFromCertificate(l)
+		ok := err == nil && ski == hex.EncodeToString(spkiHash(l))
+		detail := "ski=" + ski
+		if err != nil {
+			detail = "refused: " + err.Error()
+		}
+		results = append(results, result{Case: name, Expected: true, Got: ok, Detail: detail})
+	}
+	_ = keyCases
 
 	// ---- verdicts ----
 	type kf struct{ Property, Key, What string }
@@ -500,4 +549,30 @@ func main() {
 		os.Exit(1)
 	}
 	os.Exit(0)
+}
+
+// keyReader stands in for crypto/rand.Reader while one certificate is generated: a single-byte read (the
+// randutil.MaybeReadByte of ecdsa.GenerateKey, which happens or not) gets a zero, the first 32-byte read gets
+// the chosen scalar, everything after that a fixed counter stream.
+type keyReader struct {
+	scalar []byte
+	given  bool
+	ctr    byte
+}
+
+func (r *keyReader) Read(p []byte) (int, error) {
+	if !r.given && len(p) == 1 {
+		p[0] = 0
+		return 1, nil
+	}
+	if !r.given && len(p) == len(r.scalar) {
+		copy(p, r.scalar)
+		r.given = true
+		return len(p), nil
+	}
+	for i := range p {
+		r.ctr++
+		p[i] = r.ctr | 1
+	}
+	return len(p), nil
 }
